@@ -63,7 +63,10 @@ def judge(case):
     pos = {}
     line = 1
     for c in pre:
-        pos[(c.line, c.col)] = (line, c)
+        # (a virtual brace has no text and carries the original position of the chunk in front of it: the real chunk keeps the key, so a
+        # decision recorded for 'virtual brace, next chunk' is measured from the real chunk in front of the brace)
+        if c.text or (c.line, c.col) not in pos:
+            pos[(c.line, c.col)] = (line, c)
         if c.type in tokrel.NL_TYPES:
             line += c.nl
         elif '\n' in c.text:
@@ -155,7 +158,7 @@ def judge(case):
             counts['not_on_one_output_line'] += 1
             continue
         ca, cb = a[1], b[1]
-        if ca.type.startswith('VBRACE') or cb.type.startswith('VBRACE'):
+        if cb.type.startswith('VBRACE') or t2.startswith('VBRACE') or (ca.type.startswith('VBRACE')):
             continue
         if a[0] - 1 >= len(out_lines):
             counts['unlocatable'] += 1
